@@ -35,8 +35,8 @@ func init() {
 		Quick: 5000, Thorough: 500000,
 		Run:        runC08,
 		Rule:       "one run = one generated (type, value, protocol in {binary strict, binary non-strict, compact}) whose encoding E decodes; evaluations = individual faulted decodes: EOF at every offset of E through bytes.Reader and through the simulated reader (both io.ByteReader flavours), a reader error at every offset (all offsets up to 512 bytes, sampled beyond), chunk schedules, 6 byte substitutions per offset, every length / element count set to negative, oversized and out-of-range values, foreign fields of 12 shapes x 4 undeclared ids at every field boundary of every struct level, trailing bytes, each required field removed, each declared top-level field given another wire type, direct Reader method calls on arbitrary bytes. non-trivial = E has at least 2 bytes; distinct = distinct hash of (type, protocol, E)",
-		FaultKinds: []string{"eof-at-offset(bytes.Reader)", "eof-at-offset(simulated reader)", "eof-at-offset(simulated ByteReader)", "reader-error-at-offset", "chunked-delivery", "rot(byte-substitution)", "size-negative", "size-oversized", "size-out-of-range", "foreign-field", "foreign-field-nested-level", "foreign-field-with-corrupted-size", "trailing-bytes", "required-field-removed", "failed-decode-then-decode", "wire-type-changed(strict)", "wire-type-changed(non-strict)", "element-type-changed(strict)", "reader-method-on-arbitrary-bytes", "scaling-probe(n vs 8n elements)", "inflated-count-on-a-long-collection", "protocol:binary", "protocol:binary-nonstrict", "protocol:compact", "cut-inside-length", "data+err"},
-		ProbeNames: []string{"messages", "precondition-failed(skipped)", "struct-levels>1", "E>=128B", "required-fields", "alloc-precise-samples", "eof-k0", "sites", "reference-parse-failed(structural operators skipped)"},
+		FaultKinds: []string{"eof-at-offset(bytes.Reader)", "eof-at-offset(simulated reader)", "eof-at-offset(simulated ByteReader)", "reader-error-at-offset", "chunked-delivery", "rot(byte-substitution)", "size-negative", "size-oversized", "size-out-of-range", "foreign-field", "foreign-field-nested-level", "foreign-field-with-corrupted-size", "trailing-bytes", "required-field-removed", "failed-decode-then-decode", "long-lived-decoder", "large-binary(>64KiB)", "wire-type-changed(strict)", "wire-type-changed(non-strict)", "element-type-changed(strict)", "reader-method-on-arbitrary-bytes", "scaling-probe(n vs 8n elements)", "inflated-count-on-a-long-collection", "protocol:binary", "protocol:binary-nonstrict", "protocol:compact", "cut-inside-length", "data+err"},
+		ProbeNames: []string{"messages", "decoder-reset-after-failure", "strict-after-reset-checked", "precondition-failed(skipped)", "struct-levels>1", "E>=128B", "required-fields", "alloc-precise-samples", "eof-k0", "sites", "reference-parse-failed(structural operators skipped)"},
 		Real:       []string{"thrift.Unmarshal, thrift.Decoder (strict and non-strict), binary and compact Readers compiled from /repo's working tree with sync and sync/atomic redirected to the shim (deterministic simulated sync.Pool, pristine library state before every run)"},
 		Model:      []string{"storage/transport medium (fault operators over the encoded bytes)", "io.Reader (simio.Reader with and without io.ByteReader)", "reference thrift parser/serialiser for both protocols (verifsim/ref) used to locate sizes and struct levels and to build foreign fields, removed fields and retyped fields"},
 		Assumptions: []string{
@@ -176,6 +176,101 @@ func (c *c08Ctx) decode(in []byte, m c08Mode, op string) (x reflect.Value, err e
 		return x, err, false
 	}
 	return x, err, true
+}
+
+// longLived drives one Decoder through a stream of three copies of e (chunked
+// by the simulated reader), then a clean end of input; then Resets it, after a
+// decode that failed half-way, onto a fresh reader.
+func (c *c08Ctx) longLived(e []byte, base reflect.Value, p thrift.Protocol, retyped []byte) (ok bool) {
+	r := c.r
+	r.Fault("long-lived-decoder")
+	var pan string
+	defer func() {
+		if e := recover(); e != nil {
+			pan = fmt.Sprintf("%v\n%s", e, stackOfLibrary())
+			r.Fail("panic", "decode-panic:"+panicSite(pan), "a long-lived thrift Decoder (%s) panicked (type %s): %s", thriftProtoNames[c.pi], c.ty.name, pan)
+			ok = false
+		}
+	}()
+	if base.IsValid() && !c.longLivedStream(e, base, p) {
+		return false
+	}
+	return c.strictAfterReset(e, p, retyped)
+}
+
+func (c *c08Ctx) longLivedStream(e []byte, base reflect.Value, p thrift.Protocol) bool {
+	r, t := c.r, c.r.T
+	stream := append(append(append([]byte(nil), e...), e...), e...)
+	sr := &simio.Reader{Data: stream, Cut: len(stream), Final: io.EOF, Tail: 1 + t.Intn(len(e)+2)}
+	for i, n := 0, t.Intn(4); i < n; i++ {
+		sr.Script = append(sr.Script, simio.Event{N: t.Intn(len(e) + 2)})
+	}
+	var rd io.Reader = sr
+	if t.Bool() {
+		rd = simio.ByteReader{Reader: sr}
+	}
+	d := thrift.NewDecoder(p.NewReader(rd))
+	for i := 0; i < 3; i++ {
+		x := reflect.New(c.ty.rt)
+		if err := d.Decode(x.Interface()); err != nil {
+			r.Fail("stream", "stream-value-rejected", "value %d of a stream of three copies of one valid encoding through one Decoder: %v (%s, type %s)\ninput=%x", i+1, err, thriftProtoNames[c.pi], c.ty.name, clip(e, 300))
+			r.ScenarioOut = c.scenario(e, e, "")
+			return false
+		}
+		if !reflect.DeepEqual(x.Interface(), base.Interface()) {
+			r.Fail("stream", "stream-value-differs", "value %d of a stream of three copies of one valid encoding through one Decoder differs from the value Unmarshal yields (%s, type %s)\ninput=%x", i+1, thriftProtoNames[c.pi], c.ty.name, clip(e, 300))
+			r.ScenarioOut = c.scenario(e, e, "")
+			return false
+		}
+	}
+	if len(e) > 0 {
+		x := reflect.New(c.ty.rt)
+		if err := d.Decode(x.Interface()); err == nil {
+			r.Fail("stream", "value-after-end-of-stream", "a fourth Decode on a stream of three values returned a value (%s, type %s)", thriftProtoNames[c.pi], c.ty.name)
+			r.ScenarioOut = c.scenario(e, e, "")
+			return false
+		}
+	}
+	// a decode that fails half-way, then Reset onto a fresh reader
+	if len(e) > 1 {
+		cut := 1 + t.Intn(len(e)-1)
+		d.SetStrict(true)
+		d.Reset(p.NewReader(bytes.NewReader(e[:cut])))
+		x := reflect.New(c.ty.rt)
+		if err := d.Decode(x.Interface()); err == nil {
+			r.Probe("torn-input-accepted-as-value")
+		}
+		d.Reset(p.NewReader(bytes.NewReader(e)))
+		x = reflect.New(c.ty.rt)
+		if err := d.Decode(x.Interface()); err != nil || !reflect.DeepEqual(x.Interface(), base.Interface()) {
+			r.Fail("stream", "reset-after-failure", "a Decoder that was Reset onto a fresh reader after a decode that failed at byte %d returns err=%v / another value than Unmarshal for a valid encoding (%s, type %s)\ninput=%x", cut, err, thriftProtoNames[c.pi], c.ty.name, clip(e, 300))
+			r.ScenarioOut = c.scenario(e, e, "")
+			return false
+		}
+		r.Probe("decoder-reset-after-failure")
+	}
+	return true
+}
+
+// strictAfterReset: strict mode, once set, is a property of the Decoder: Reset
+// onto another reader does not turn it off.
+func (c *c08Ctx) strictAfterReset(e []byte, p thrift.Protocol, retyped []byte) bool {
+	r := c.r
+	if retyped != nil {
+		d := thrift.NewDecoder(p.NewReader(bytes.NewReader(e)))
+		d.SetStrict(true)
+		d.Reset(p.NewReader(bytes.NewReader(retyped)))
+		x := reflect.New(c.ty.rt)
+		err := d.Decode(x.Interface())
+		var tm *thrift.TypeMismatch
+		if !errors.As(err, &tm) {
+			r.Fail("type-mismatch", "type-mismatch-not-reported-after-reset", "SetStrict(true), then Reset onto a reader whose input gives a declared field another wire type: Decode returned %v instead of *thrift.TypeMismatch (%s, type %s)\ninput=%x", err, thriftProtoNames[c.pi], c.ty.name, clip(retyped, 300))
+			r.ScenarioOut = c.scenario(retyped, e, "type-mismatch(strict-after-reset)")
+			return false
+		}
+		r.Probe("strict-after-reset-checked")
+	}
+	return true
 }
 
 func modeName(m c08Mode) string {
@@ -332,6 +427,11 @@ func runC08(r *core.Run) {
 			return
 		}
 	}
+	if t.Chance(1, 50) {
+		if !c08LargeBinary(r) {
+			return
+		}
+	}
 	ty := c08Type(t)
 	pi := t.Intn(3)
 	compact := pi == 2
@@ -393,6 +493,7 @@ func runC08(r *core.Run) {
 		r.Fail(class, key, format, a...)
 		r.ScenarioOut = c.scenario(in, e, expect)
 	}
+	var retyped []byte // a copy of E in which a declared top-level field has another wire type
 	sameAsBase := func(x reflect.Value) bool { return reflect.DeepEqual(x.Interface(), base.Interface()) }
 
 	// reference parse (sites, levels)
@@ -756,6 +857,7 @@ func runC08(r *core.Run) {
 			tree.Fields[fi].Val = repl
 			m := ref.ThriftAppend(nil, &tree, compact, stop3)
 			tree.Fields[fi] = saved
+			retyped = m
 			_, err, ok := c.decode(m, c08Mode{strict: true, decoder: true}, "wire-type-changed")
 			if !ok {
 				return
@@ -841,6 +943,12 @@ func runC08(r *core.Run) {
 			fail("trailing-bytes", "trailing-bytes-accepted", m, "error", "Unmarshal accepted %d trailing bytes after a complete value (%s, type %s)", len(junk), thriftProtoNames[pi], ty.name)
 			return
 		}
+	}
+
+	// K. one long-lived Decoder: successive values from one stream, then Reset to
+	// another reader after a failed decode; strict mode survives Reset
+	if !c.longLived(e, base, p, retyped) {
+		return
 	}
 
 	// J. direct Reader method calls on arbitrary bytes
@@ -948,6 +1056,10 @@ func c08RunScenario(r *core.Run) {
 			return
 		}
 	}
+	if sc.Expect == "type-mismatch(strict-after-reset)" {
+		c.longLived(sc.Base, reflect.Value{}, thriftProtos[sc.Proto], sc.Input)
+		return
+	}
 	m := c08Mode{}
 	if sc.Expect == "type-mismatch(strict)" {
 		m = c08Mode{strict: true, decoder: true}
@@ -1009,6 +1121,96 @@ func bigSites(b []byte, compact bool) []ref.TSite {
 		return nil
 	}
 	return sites
+}
+
+// TBigBin carries the large string of c08LargeBinary between two small fields.
+type TBigBin struct {
+	A bool   `thrift:"1"`
+	S string `thrift:"2"`
+	N int32  `thrift:"3"`
+}
+
+// c08LargeBinary: a string / binary longer than 64 KiB (read in chunks by the
+// library), top-level and as a struct field, cut around the powers of two of its
+// payload: the truncation rule and the allocation bound hold there too.
+func c08LargeBinary(r *core.Run) bool {
+	t := r.T
+	pi := t.Intn(3)
+	p := thriftProtos[pi]
+	n := []int{65537, 100000, 131073, 300000}[t.Intn(4)]
+	payload := bytes.Repeat([]byte("large-binary-"), n/13+1)[:n]
+	var ty *simType
+	var v any
+	switch t.Intn(3) {
+	case 0:
+		ty, v = &simType{codec: gen.Thrift, rt: reflect.TypeOf(""), name: "string"}, string(payload)
+	case 1:
+		ty, v = &simType{codec: gen.Thrift, rt: reflect.TypeOf([]byte(nil)), name: "[]byte"}, payload
+	default:
+		ty, v = &simType{codec: gen.Thrift, rt: reflect.TypeOf(TBigBin{}), name: "TBigBin"}, TBigBin{A: true, S: string(payload), N: 7}
+	}
+	e, err := thriftMarshalNoPanic(p, v)
+	if err != nil || len(e) < n {
+		r.Probe("precondition-failed(skipped)")
+		return true
+	}
+	c := &c08Ctx{r: r, ty: ty, pi: pi}
+	warmThrift(p, ty.rt)
+	r.Fault("large-binary(>64KiB)")
+	hdr := bytes.Index(e, payload[:64])
+	if hdr < 0 {
+		r.Probe("precondition-failed(skipped)")
+		return true
+	}
+	var cuts []int
+	for _, k := range []int{0, 1, 4095, 4096, 4097, 65535, 65536, 65537, 131071, 131072, 131073, 262143, 262144, 262145, n - 1, n - 4096} {
+		if k >= 0 && k < n {
+			cuts = append(cuts, hdr+k)
+		}
+	}
+	cuts = append(cuts, hdr-1, hdr+t.Intn(n))
+	for i, k := range cuts {
+		var m c08Mode
+		switch (i + pi) % 3 {
+		case 1:
+			m = c08Mode{viaSim: true, cut: k, tail: []int{1 << 20, 4096, 65536, 7001}[i%4]}
+		case 2:
+			m = c08Mode{viaSim: true, byteReader: true, cut: k, tail: []int{1 << 20, 4096, 65536, 7001}[i%4]}
+		}
+		in := e[:k]
+		if m.viaSim {
+			in = e
+		}
+		_, err, ok := c.decode(in, m, "large-binary-torn")
+		if !ok {
+			return false
+		}
+		if err == nil || err == io.EOF || !errors.Is(err, io.ErrUnexpectedEOF) {
+			key := "truncated-not-unexpected-eof"
+			if err == io.EOF {
+				key = "truncated-plain-eof"
+			} else if err == nil {
+				key = "truncated-accepted"
+			}
+			r.Fail("eof-class", key, "a %d-byte %s (%s, %s) truncated after %d payload bytes (offset %d of %d): expected an unexpected-EOF class error, got %v", n, ty.name, thriftProtoNames[pi], modeName(m), k-hdr, k, len(e), err)
+			if !m.viaSim && ty.name != "TBigBin" {
+				r.ScenarioOut = c.scenario(e[:k], nil, "unexpected-eof")
+			}
+			return false
+		}
+	}
+	// the complete value, delivered in chunks, is the value
+	for i, tail := range []int{1 << 20, 4096, 65536, 65535, 9973} {
+		x, err, ok := c.decode(e, c08Mode{viaSim: true, byteReader: i%2 == 1, cut: -1, tail: tail}, "large-binary-chunked")
+		if !ok {
+			return false
+		}
+		if err != nil || !reflect.DeepEqual(x.Elem().Interface(), v) {
+			r.Fail("chunking-changes-result", "chunking-changes-result", "a %d-byte %s (%s) delivered in chunks of %d: err=%v / another value", n, ty.name, thriftProtoNames[pi], tail, err)
+			return false
+		}
+	}
+	return true
 }
 
 // c08Scaling: a list / map with 8 times as many elements may allocate at most 16
